@@ -12,6 +12,7 @@ C08 line-protocol driver. Requests:
 import DarsiaModel.Basic
 import DarsiaModel.Saddle
 import DarsiaModel.Csc
+import DarsiaModel.SolverCache
 open Darsia
 
 def showCsc (m : Csc.CSC Rat) : String :=
@@ -76,7 +77,21 @@ def handleSolve : List String → Option String
     | .ok x => pure (showRats x.toList)
   | _ => none
 
+/-- `cache <full|flux_reduced|pressure> <direct|amg|cg> <n> (matrixId reuse)*` → per call `used setup precond|none`, `;`-separated -/
+def handleCache : List String → Option String
+  | f :: b :: rest => do
+    let f ← (match f with | "full" => some SolverCache.Formulation.full | "flux_reduced" => some .fluxReduced
+                           | "pressure" => some .pressure | _ => none)
+    let b ← (match b with | "direct" => some SolverCache.Backend.direct | "amg" => some .amg | "cg" => some .cg | _ => none)
+    let (calls, _) ← (do let cs ← P.list (do let m ← P.nat; let r ← P.bool; pure ((m, 0), r)); P.done; pure cs : P _).run rest
+    match SolverCache.run f b SolverCache.fresh calls with
+    | .error e => pure e.show
+    | .ok (_, os) => pure (" ; ".intercalate (os.map fun o =>
+        s!"{o.used.1} {showBool o.setup} " ++ (match o.precond with | none => "none" | some m => toString m.1)))
+  | _ => none
+
 def dispatch : List String → Option String
+  | "cache" :: rest => handleCache rest
   | "surgery" :: rest => handleSurgery rest
   | "assemble" :: rest => handleAssemble rest
   | "reduce" :: rest => handleReduce rest
